@@ -443,6 +443,8 @@ func classifyLoadErr(err error) string {
 		return "cycle"
 	case strings.Contains(m, "no flow direction defined"):
 		return "undefined"
+	case strings.Contains(m, "circular flow reference"):
+		return "refcycle"
 	case strings.Contains(m, "foreign root node not found"), strings.Contains(m, "root node not found for flow"):
 		return "foreignroot"
 	case strings.Contains(m, "failed to incorporate flow"):
